@@ -11,6 +11,7 @@ from engine import pat
 from engine.util import own_nodes, calls_with_nodes, where
 
 RULES = {
+    "R-09.11": "every TTL the zone writer can print loads again: the TTL refusal on the path every record of a zone file takes (Transaction._rdataset_from_args), evaluated by the checker at MAX_TTL and MAX_TTL + 1, is False and True - the maximum itself is a legal TTL",
     "R-09.10": "$GENERATE modifiers default alike in every spelling: each branch of Reader._parse_modify that unpacks regex groups applies every empty-group default (`if v == \"\": v = ...`) that a sibling branch applies to the same variable (an unsigned `${5}` means `${+5}`); and chunked output covers the whole value: _wordbreak slices range(0, len(data), chunksize)",
     "R-09.9": "the tokenizer treats a parenthesised multi-line record like its one-line spelling: whenever Tokenizer.get consumes a delimiter and starts the token scan afresh (`continue` after `(`, `)`, a closing quote, a comment that ends inside parentheses) it first skips the whitespace that follows - only the opening quote, whose content is significant, does not",
     "R-09.8": "records of one owner and type merge while the file is read only if the lookup addresses the stored rdataset by its full (rdclass, rdtype, covers) key: calls that pass <x>.rdtype (or their own rdtype) also pass the matching covers (same rule as C10 R-10.9, run here directly because C10 adopts a C09 rule)",
@@ -242,6 +243,21 @@ def run(model, rep, tier):
                   f"the scan restarts (`continue` after `{what}`) without self.skip_whitespace(): inside parentheses the indentation of the next line (or a blank line) after a comment / delimiter "
                   "becomes a token of its own, so the multi-line spelling of a record is a syntax error while its one-line spelling loads", stmt=f"restart {n_cont}")
     rep.floor("R-09.9", n_cont, 4)
+    # ---------------------------------------------------------------- R-09.11
+    from engine.minieval import evaluate, Unsupported
+    ra = model.func("dns.transaction.Transaction._rdataset_from_args")
+    t11 = [n for n in ast.walk(ra.node) if isinstance(n, ast.If) and any(isinstance(b, ast.Raise) and "TTL" in src(b) for b in n.body)]
+    if len(t11) != 1:
+        rep.blind("R-09.11", ra.qualname, where(ra, ra.node), "the `TTL value too big` refusal was not found", stmt="ttl-max-accepted")
+    else:
+        var11 = sorted({x.id for x in ast.walk(t11[0].test) if isinstance(x, ast.Name) and x.id != "dns"})
+        try:
+            mx = int(model.const(ra.module, ast.parse("dns.ttl.MAX_TTL", mode="eval").body))
+            verdict = [bool(evaluate(t11[0].test, {var11[0]: v}, lambda nd: model.const(ra.module, nd))) for v in (mx, mx + 1)]
+            rep.check(verdict == [False, True], "R-09.11", ra.qualname, where(ra, t11[0]), "TTLs up to MAX_TTL are accepted, MAX_TTL + 1 is refused",
+                      f"`{src(t11[0].test)}` is {verdict} at MAX_TTL, MAX_TTL + 1 (expected [False, True]): a zone holding a record (or $TTL) of exactly 4294967295 is written but cannot be read back", stmt="ttl-max-accepted")
+        except (Unsupported, AnalysisError, IndexError) as e:
+            rep.blind("R-09.11", ra.qualname, where(ra, t11[0]), f"TTL test not evaluable: {e}", stmt="ttl-max-accepted")
     # ---------------------------------------------------------------- R-09.10
     pm10 = model.func("dns.zonefile.Reader._parse_modify")
     branches = []
@@ -274,6 +290,8 @@ def run(model, rep, tier):
 
 
 WITNESSES = [
+    {"id": "c09-max-ttl-refused", "rule": "R-09.11", "file": "dns/transaction.py", "expect": "fires",
+     "old": "                        if ttl > dns.ttl.MAX_TTL:", "new": "                        if ttl >= dns.ttl.MAX_TTL:"},
     {"id": "c09-neutral-table-key-replaced", "rule": "R-09.3", "file": "dns/node.py", "expect": "fires",
      "old": "    dns.rdatatype.KEY,  # RFC 4035 section 2.5, RFC 3007", "new": "    dns.rdatatype.DNSKEY,  # RFC 4035 section 2.5, RFC 3007"},
     {"id": "c09-generate-unsigned-offset-not-defaulted", "rule": "R-09.10", "file": "dns/zonefile.py", "expect": "fires",
